@@ -223,13 +223,10 @@ func refCompatible(vt, t *types.Type) bool {
 	if vt == nil || t == nil {
 		return false
 	}
-	if vt.Kind == types.KBot {
-		// only as the element type of an empty container (refSelfConsistent
-		// insists on the emptiness)
-		return true
-	}
-	if t.Kind == types.KBot {
-		return false
+	if vt.Kind == types.KBot || t.Kind == types.KBot {
+		// ⊥ is the element type of an empty literal and of nothing else: a
+		// value produced at type list[num] is a list[num], empty or not
+		return vt.Kind == t.Kind
 	}
 	if vt.Kind != t.Kind {
 		return false
